@@ -89,7 +89,12 @@ class PrecipitationStoppingCondition:
                 if model.pData.n > 0:
                     currVal, currTime = self._poll(model, model.pData.n), model.pData.time[model.pData.n]
                     prevVal, prevTime = self._poll(model, model.pData.n-1), model.pData.time[model.pData.n-1]
-                    self._satisfiedTime = (currTime - prevTime) * (self._value - prevVal) / (currVal - prevVal) + prevTime
+                    if currVal == prevVal:
+                        self._satisfiedTime = prevTime
+                    else:
+                        self._satisfiedTime = (currTime - prevTime) * (self._value - prevVal) / (currVal - prevVal) + prevTime
+                        #If the condition was already met at the previous step (e.g. by the initial state), there is no crossing to interpolate to
+                        self._satisfiedTime = min(max(self._satisfiedTime, prevTime), currTime)
                 else:
                     self._satisfiedTime = model.pData.time[model.pData.n]
 
